@@ -6,16 +6,18 @@
 #include <unifex/stop_token_concepts.hpp>
 #include <unifex/type_traits.hpp>
 #include <utility>
+#include <exception>
 namespace vf {
 struct leaf_base {
   void (*complete_)(leaf_base*, int outcome, int v) noexcept;
   bool started = false, completed = false, stop_seen = false, stop_at_start = false, destroyed = false;
 };
 inline leaf_base* g_leaf[4];
+inline std::exception_ptr* g_leaf_eptr;   // error object used by exception_ptr-flavoured leaves (leaked on purpose; exempt: created via new before use)
 inline int g_leaf_started[4], g_leaf_completed[4], g_leaf_stop_seen[4], g_leaf_stop_at_start[4], g_leaf_destroyed[4];
 inline bool g_leaf_cancel_inline[4];
 inline int g_leaf_seq, g_leaf_done_seq[4], g_leaf_outcome[4];   // leaf reacts to a stop request by completing with done from inside its stop callback
-template <typename R, bool Void = false>
+template <typename R, bool Void = false, bool EPtr = false>
 struct leaf_op : leaf_base {
   struct on_stop { leaf_op* op; void operator()() noexcept {
     op->stop_seen = true; g_leaf_stop_seen[op->idx_] = 1;
@@ -32,7 +34,7 @@ struct leaf_op : leaf_base {
       self->completed = true; g_leaf_completed[self->idx_] = 1; g_leaf_done_seq[self->idx_] = ++g_leaf_seq; g_leaf_outcome[self->idx_] = outcome;
       self->cb_.destruct();
       if (outcome == 0) { if constexpr (Void) unifex::set_value(std::move(self->r_)); else unifex::set_value(std::move(self->r_), int(v)); }
-      else if (outcome == 1) unifex::set_error(std::move(self->r_), int(v));
+      else if (outcome == 1) { if constexpr (EPtr) { if (!g_leaf_eptr) g_leaf_eptr = new std::exception_ptr(std::make_exception_ptr(int(v))); unifex::set_error(std::move(self->r_), *g_leaf_eptr); } else unifex::set_error(std::move(self->r_), int(v)); }
       else unifex::set_done(std::move(self->r_));
     };
   }
@@ -50,17 +52,18 @@ struct leaf_op : leaf_base {
 };
 template <bool Void, template <typename...> class V, template <typename...> class T> struct mleaf_values { using type = V<T<int>>; };
 template <template <typename...> class V, template <typename...> class T> struct mleaf_values<true, V, T> { using type = V<T<>>; };
-template <bool Void>
+template <bool Void, bool EPtr = false>
 struct basic_leaf_sender {
   int idx;
   template <template <typename...> class V, template <typename...> class T> using value_types = typename mleaf_values<Void, V, T>::type;
-  template <template <typename...> class V> using error_types = V<int>;
+  template <template <typename...> class V> using error_types = std::conditional_t<EPtr, V<std::exception_ptr>, V<int>>;
   static constexpr bool sends_done = true;
   static constexpr unifex::blocking_kind blocking = unifex::blocking_kind::never;
-  template <typename R> leaf_op<unifex::remove_cvref_t<R>, Void> connect(R&& r) const& noexcept { return {(R&&)r, idx}; }
+  template <typename R> leaf_op<unifex::remove_cvref_t<R>, Void, EPtr> connect(R&& r) const& noexcept { return {(R&&)r, idx}; }
 };
 using leaf_sender = basic_leaf_sender<false>;
 using vleaf_sender = basic_leaf_sender<true>;
+using eleaf_sender = basic_leaf_sender<false, true>;   // errors are std::exception_ptr carrying an int
 inline bool leaf_running(int i) noexcept { return g_leaf_started[i] && !g_leaf_completed[i]; }
 inline void complete_leaf(int i, int outcome, int v) noexcept { g_leaf[i]->complete_(g_leaf[i], outcome, v); }
 }  // namespace vf
